@@ -21,12 +21,15 @@ EXTENDS Parallelize, Json, IOUtils, TLCExt
 
 Traces == ndJsonDeserialize(IOEnv.TRACE_FILE)
 
-VARIABLES t, l, inv
-tvars == <<vars, t, l, inv>>
+VARIABLES t, l, inv,
+          ack      \* real multiprocessing only: ack[w] = the worker's last q_in.get() has shown up in the log.  Several workers
+                   \* dequeue from q_in and each logs AFTER its get returned, so the log order of two gets can invert the
+                   \* dequeue order: the dequeue itself is a silent step (Take) and the logged event acknowledges it.
+tvars == <<vars, t, l, inv, ack>>
 Ev == Traces[t].ev
 Rec == Traces[t].fin
 
-TraceInit == /\ Init /\ t \in 1..Len(Traces) /\ l = 1 /\ inv = TRUE
+TraceInit == /\ Init /\ t \in 1..Len(Traces) /\ l = 1 /\ inv = TRUE /\ ack = [w \in W |-> TRUE]
 
 E == Ev[l]
 Is(name) == l <= Len(Ev) /\ E[1] = name
@@ -36,9 +39,9 @@ Step == \/ Is("CPeekYield") /\ CPeekYield /\ nextIn = E[2]
         \/ Is("PPut") /\ PPut /\ nextIn = E[2]
         \/ Is("PMarker") /\ PMarker
         \/ Is("FeedIn") /\ FeedIn /\ Head(pbuf) = E[2]
-        \/ Is("WGet") /\ WGet(E[2]) /\ Head(qin) = E[3]
-        \/ Is("WPut") /\ WPut(E[2]) /\ wrow[E[2]] = E[3]
-        \/ Is("WExit") /\ WExit(E[2])
+        \/ Is("WGet") /\ Traces[t].feeds /\ WGet(E[2]) /\ Head(qin) = E[3]
+        \/ Is("WPut") /\ ack[E[2]] /\ WPut(E[2]) /\ wrow[E[2]] = E[3]
+        \/ Is("WExit") /\ ack[E[2]] /\ WExit(E[2])
         \/ Is("FeedOut") /\ FeedOut(E[2]) /\ Head(obuf[E[2]]) = E[3]
         \/ Is("FGet") /\ FGet /\ Head(qout) = E[2]
         \/ Is("FFwd") /\ FFwd /\ frow = E[2]
@@ -50,16 +53,22 @@ Step == \/ Is("CPeekYield") /\ CPeekYield /\ nextIn = E[2]
 \* real multiprocessing does not show its feeder threads: a Feed step may happen silently (bounded: buffers only shrink)
 Silent == /\ ~Traces[t].feeds
           /\ (FeedIn \/ \E w \in W : FeedOut(w))
-TraceNext == \/ /\ Step /\ l' = l + 1 /\ UNCHANGED t
+\* real multiprocessing: the dequeue is silent, the logged WGet acknowledges what the worker holds
+Take == /\ ~Traces[t].feeds /\ \E w \in W : ack[w] /\ WGet(w) /\ ack' = [ack EXCEPT ![w] = FALSE]
+Acknowledge == /\ Is("WGet") /\ ~Traces[t].feeds /\ ~ack[E[2]] /\ wrow[E[2]] = E[3]
+               /\ ack' = [ack EXCEPT ![E[2]] = TRUE] /\ UNCHANGED vars
+TraceNext == \/ /\ Step /\ l' = l + 1 /\ UNCHANGED <<t, ack>>
                 /\ inv' = (inv /\ AtMostOnce' /\ AppliedBeforeDelivered')
-             \/ /\ Silent /\ UNCHANGED <<t, l, inv>>
+             \/ /\ Acknowledge /\ l' = l + 1 /\ UNCHANGED <<t, inv>>
+             \/ /\ Silent /\ UNCHANGED <<t, l, inv, ack>>
+             \/ /\ Take /\ UNCHANGED <<t, l>> /\ inv' = (inv /\ AtMostOnce' /\ AppliedBeforeDelivered')
 TraceSpec == TraceInit /\ [][TraceNext]_tvars
 
 \* the property, on the RECORDED outcome
 RecOnce == /\ Rec.terminated
            /\ Len(Rec.delivered) = R
            /\ \A r \in 1..R : Cardinality({i \in 1..Len(Rec.delivered) : Rec.delivered[i] = r}) = 1
-           /\ \A i \in 1..Len(Rec.delivered) : Rec.applied[i] = (IF Rec.delivered[i] \in Sel THEN 1 ELSE 0)
+           /\ \A i \in 1..Len(Rec.delivered) : Rec.applied[i] = (IF Rec.delivered[i] \in Sel \ Fail THEN 1 ELSE 0)
 \* progress register per trace: the furthest point reached (monotone in l), with the model-side verdicts there
 Progress == LET old == TLCGetOrDefault(t, <<0>>) IN
             IF l - 1 >= old[1]
@@ -69,5 +78,5 @@ Report == \A i \in 1..Len(Traces) : PrintT(<<"VERDICT", i, TLCGet(i),
              LET rec == Traces[i].fin IN
              /\ rec.terminated /\ Len(rec.delivered) = R
              /\ \A r \in 1..R : Cardinality({k \in 1..Len(rec.delivered) : rec.delivered[k] = r}) = 1
-             /\ \A k \in 1..Len(rec.delivered) : rec.applied[k] = (IF rec.delivered[k] \in Sel THEN 1 ELSE 0)>>)
+             /\ \A k \in 1..Len(rec.delivered) : rec.applied[k] = (IF rec.delivered[k] \in Sel \ Fail THEN 1 ELSE 0)>>)
 =============================================================================
